@@ -285,6 +285,11 @@ func init() {
 		}
 		return &TupleV{V: []Value{c.byteC(s[0]), IfaceV{Nil: true}}}
 	})
+	intrinsics["time.Sleep"] = func(c *Ctx, st *State, in ssa.Instruction, args []Value) Value {
+		st.CallLog = append(st.CallLog, CallRec{Callee: "time.Sleep", Args: args})
+		c.Assumed["time.Sleep is a ghost event (its duration is recorded, real time is not modelled)"] = true
+		return nil
+	}
 	intrinsics["os.Getenv"] = func(c *Ctx, st *State, in ssa.Instruction, args []Value) Value {
 		n, ok := concStr(args[0])
 		if !ok {
